@@ -83,6 +83,7 @@ fn run_case(cx: &CaseCtx, rep: &mut Report) {
 		1 => 10_000,
 		_ => cx.tier.pick(20_000, 100_000),
 	};
+	let len = if cx.tier.is_tiny() { 250 } else { len };
 	let mix = (rng.range(1, 6), rng.range(1, 6), rng.range(1, 6), rng.range(0, 2)); // add, get, loadok, loaderr weights
 	cx.progress(&format!("cap={cap} keys={keys} len={len}"));
 
